@@ -34,9 +34,15 @@ pub enum Client {
     SplitInTerminator3,
     /// one octet per segment
     SplitBytewise,
+    /// complete non-GET requests with unusual method tokens: invalid UTF-8, a long multi-byte verb,
+    /// a very long ASCII verb, an empty request line
+    NonGetBinary,
+    NonGetLongUnicode,
+    NonGetLongAscii,
+    NonGetEmptyLine,
 }
 
-pub const CLIENTS: [Client; 15] = [
+pub const CLIENTS: [Client; 19] = [
     Client::WellFormedGet,
     Client::CloseAfter0,
     Client::CloseAfterPartial,
@@ -52,6 +58,10 @@ pub const CLIENTS: [Client; 15] = [
     Client::SplitInTerminator2,
     Client::SplitInTerminator3,
     Client::SplitBytewise,
+    Client::NonGetBinary,
+    Client::NonGetLongUnicode,
+    Client::NonGetLongAscii,
+    Client::NonGetEmptyLine,
 ];
 
 #[derive(Clone, Copy, Debug, PartialEq, Eq, Hash, serde::Serialize, serde::Deserialize)]
@@ -146,6 +156,21 @@ pub fn act(port: u16, c: Client) -> Option<bool> {
             let _ = s.write_all(&b);
             std::thread::sleep(Duration::from_millis(10));
         }
+        Client::NonGetBinary | Client::NonGetLongUnicode | Client::NonGetLongAscii | Client::NonGetEmptyLine => {
+            let req: Vec<u8> = match c {
+                Client::NonGetBinary => b"\xff\xfe\xfd\xfc\xfb\xfa\xf9\xf8\x80\x81\xc3\x28 /metrics HTTP/1.1\r\nHost: x\r\n\r\n".to_vec(),
+                Client::NonGetLongUnicode => "\u{6e2c}\u{8a66}\u{6e2c}\u{8a66}\u{6e2c}\u{8a66}\u{6e2c}\u{8a66}\u{1f600}\u{1f600} /metrics HTTP/1.1\r\n\r\n".as_bytes().to_vec(),
+                Client::NonGetLongAscii => {
+                    let mut v = vec![b'Q'; 900];
+                    v.extend_from_slice(b" /metrics HTTP/1.1\r\n\r\n");
+                    v
+                }
+                _ => b"\r\n\r\n".to_vec(),
+            };
+            let _ = s.write_all(&req);
+            let mut t = [0u8; 64];
+            let _ = s.read(&mut t);
+        }
         Client::NonGet => {
             let _ = s.write_all(b"POST /metrics HTTP/1.1\r\nHost: localhost\r\nContent-Length: 0\r\n\r\n");
             let mut t = [0u8; 64];
@@ -234,7 +259,7 @@ pub struct Seq {
 }
 
 pub fn run(rep: &mut Report, tier: &str, seed: u64, shard: (u32, u32), replay: Option<&str>) {
-    rep.rule = "sequences of client behaviours (well-formed GET, close after 0 / partial / header-less bytes, 2048 and 4096 bytes without terminator, non-GET verb, split writes (7-octet pieces, one octet per segment, and two segments cut 1/2/3 octets into the CRLFCRLF terminator; each must be answered while the client waits), TCP reset before and after the request, close before reading the response) x observation-socket behaviours (valid JSON, truncated, invalid, refused, accept-then-close), each followed by a well-formed probe; every single behaviour x observation behaviour is enumerated, longer sequences (<= 4) are seeded samples (all pairs in thorough); the exporter is restarted after each wedging sequence; distinct = distinct sequences".into();
+    rep.rule = "sequences of client behaviours (well-formed GET, close after 0 / partial / header-less bytes, 2048 and 4096 bytes without terminator, non-GET requests (POST, invalid-UTF-8 / long multi-byte / 900-octet ASCII method tokens, empty request line), split writes (7-octet pieces, one octet per segment, and two segments cut 1/2/3 octets into the CRLFCRLF terminator; each must be answered while the client waits), TCP reset before and after the request, close before reading the response) x observation-socket behaviours (valid JSON, truncated, invalid, refused, accept-then-close), each followed by a well-formed probe; every single behaviour x observation behaviour is enumerated, longer sequences (<= 4) are seeded samples (all pairs in thorough); the exporter is restarted after each wedging sequence; distinct = distinct sequences".into();
     rep.require(&["sequence_run", "probe_ok", "probe_ok_error_status", "well_formed_request_answer_checked"]);
     let valid_json: Vec<u8> = {
         // a valid state: take it from a live default instance
